@@ -10,62 +10,57 @@
 (* grows by one; passes repeat while the buffer is still full.  The        *)
 (* as-is switch "F8" models the code as it was: exactly one pass.          *)
 (* Count = |buf| * 2^k.  The coin outcomes are the nondeterminism: TLC     *)
-(* explores all of them.                                                   *)
+(* explores all of them.  The @type comments are for Apalache (CVMInd).    *)
 (***************************************************************************)
 EXTENDS Integers, Sequences, FiniteSets, TLC
 
-CONSTANT Known
+CONSTANT
+  \* @type: Set(Str);
+  Known
 
+\* @typeAlias: counter = { buf: Set(Int), k: Int, cap: Int, seen: Set(Int) };
+\* @type: (Int) => $counter;
 New(cap) == [buf |-> {}, k |-> 0, cap |-> cap, seen |-> {}]
 Pow2(k) == 2 ^ k
+\* @type: ($counter) => Int;
 Count(s) == Cardinality(s.buf) * Pow2(s.k)
 MaxPasses == 4      \* bound on consecutive all-survive passes explored / accepted per Add
 
 \* the set of states Add(v) may lead to
+\* @type: ($counter, Int) => $counter;
 AddFail(s, v) == [s EXCEPT !.buf = @ \ {v}, !.seen = @ \cup {v}]
+\* @type: ($counter, Int) => $counter;
 AddKeepNoHalve(s, v) == [s EXCEPT !.buf = @ \cup {v}, !.seen = @ \cup {v}]
+\* @type: ($counter, Set(Int)) => Bool;
 Full(s, b) == Cardinality(b) >= s.cap
 \* outcomes of the halving passes on a full buffer b
+\* @type: ($counter, Set(Int)) => Set({ buf: Set(Int), k: Int });
 HalveOutcomes(s, b) ==
   IF "F8" \in Known
     THEN {[buf |-> S, k |-> s.k + 1] : S \in SUBSET b}                     \* one pass, whatever is left
     ELSE {[buf |-> S, k |-> s.k + j] : S \in {T \in SUBSET b : ~Full(s, T)}, j \in 1..MaxPasses}
+\* @type: ($counter, Int) => Set($counter);
 AddOutcomes(s, v) ==
   LET b1 == s.buf \cup {v}
       keep == IF Full(s, b1)
                 THEN {[s EXCEPT !.buf = o.buf, !.k = o.k, !.seen = @ \cup {v}] : o \in HalveOutcomes(s, b1)}
                 ELSE {AddKeepNoHalve(s, v)}
   IN  IF s.k = 0 THEN keep ELSE keep \cup {AddFail(s, v)}
+\* @type: ($counter, Int) => Set($counter);
 KeepOutcomes(s, v) ==
   LET b1 == s.buf \cup {v}
   IN  IF Full(s, b1)
         THEN {[s EXCEPT !.buf = o.buf, !.k = o.k, !.seen = @ \cup {v}] : o \in HalveOutcomes(s, b1)}
         ELSE {AddKeepNoHalve(s, v)}
+\* @type: ($counter) => $counter;
 Reset(s) == New(s.cap)
 
 (* ---- properties of a state ---------------------------------------------- *)
+\* @type: ($counter) => Bool;
 Bounded(s) == Cardinality(s.buf) <= s.cap
+\* @type: ($counter) => Bool;
 ExactRegime(s) == Cardinality(s.seen) < s.cap => s.k = 0 /\ s.buf = s.seen
+\* @type: ($counter) => Bool;
 BufFromSeen(s) == s.buf \subseteq s.seen
 
-(* ---- unbiasedness: the one-step identities ------------------------------ *)
-(* E[ [a in buf'] * 2^k' | state ] = [a in buf] * 2^k for every a # v, and    *)
-(* = 1 for a = v, for the coin step; and the same identity for one halving  *)
-(* pass (each of the 2^n subsets equally likely).  With them E[Count] =     *)
-(* |seen| follows by induction on the stream (Count = sum over a of         *)
-(* [a in buf]*2^k).  Checked here by enumeration for all small n, in        *)
-(* integers scaled by 2^n.                                                  *)
-In(a, S) == IF a \in S THEN 1 ELSE 0
-HalveIdentity(n) ==
-  LET b == 1..n
-  IN  \A a \in b :
-        \* sum over all subsets S of [a in S] * 2^(k+1), k = 0, times 1 (weights 2^-n scaled away)
-        LET total == Cardinality({S \in SUBSET b : a \in S}) * 2
-        IN  total = Pow2(n) * 1                     \* = 2^n * [a in b] * 2^0
-CoinIdentity(k) ==
-  \* keep with weight 1, fail with weight 2^k - 1 (of 2^k): for the added value v,
-  \* E[[v in buf'] 2^k] = (1 * 2^k + (2^k - 1) * 0) / 2^k = 1, whether or not v was buffered
-  (1 * Pow2(k) + (Pow2(k) - 1) * 0) = Pow2(k) * 1
-ASSUME \A n \in 1..8 : HalveIdentity(n)
-ASSUME \A k \in 0..10 : CoinIdentity(k)
 =============================================================================
